@@ -109,9 +109,9 @@ def _is_topo(ds, sq):
 
 def compare(case, i, m):
     k = case["k"]
-    if k in (302, 303) and i and i[0] != [-2]:
+    if k in (302, 303) and (not i or i[0] != [-2]):
         # any topological order of the same cell set is the same answer
-        return sorted(i[0]) == sorted(m[0])
+        return sorted(i[0] if i else []) == sorted(m[0] if m else [])
     if k == 306 and i and i[0] != [-2]:
         return i[:2] == m[:2]
     return i == m
